@@ -26,7 +26,8 @@ def neighbours(s, rng, k=12):
     out.discard(s)
     out = sorted(out)
     rng.shuffle(out)
-    return out[:k]
+    # a trailing / leading line feed is always tried (`$` vs end of string, match vs fullmatch)
+    return out[:k] + [s + '\n', '\n' + s]
 
 
 def run(ctx):
